@@ -139,6 +139,8 @@ type Cmd struct {
 	Pipe   bool     `json:"pipe,omitempty"`   // may be sent without waiting for earlier replies
 	GoLive bool     `json:"golive,omitempty"` // connection becomes a stream after this
 	Tag    string   `json:"tag,omitempty"`
+	// Inner: for scripts, the data-modifying commands the script performs
+	Inner [][]string `json:"inner,omitempty"`
 }
 
 func (c Cmd) String() string {
@@ -199,6 +201,8 @@ type Actor struct {
 	weight    int
 	rawIn     []byte // every byte received (C16)
 	keepRaw   bool
+	// sendTogether: consecutive pipelined commands leave in ONE write
+	sendTogether bool
 }
 
 func (s *Sim) addActor(node *Node, from simAddr, prog []Cmd) *Actor {
@@ -274,10 +278,28 @@ func (a *Actor) issue() {
 		b = encodeCmd(c.Args)
 	}
 	s.logf("  a%02d> %s", a.id, clipStr(c.String(), 160))
-	a.end.Write(b)
 	if c.GoLive {
 		a.live = true
 	}
+	// optionally put the following pipelined commands into the same segment
+	for a.sendTogether && !a.live && a.next < len(a.prog) && a.prog[a.next].Pipe {
+		c2 := a.prog[a.next]
+		op2 := &Op{Client: a.id, Idx: a.next, Cmd: c2, Invoke: s.step, InvokeT: s.now(), Return: -1,
+			ConnGen: a.gen, NodeName: a.node.name}
+		a.next++
+		a.ops = append(a.ops, op2)
+		a.outst = append(a.outst, op2)
+		if c2.Raw != "" {
+			b = append(b, c2.Raw...)
+		} else {
+			b = append(b, encodeCmd(c2.Args)...)
+		}
+		s.logf("  a%02d> %s (same segment)", a.id, clipStr(c2.String(), 160))
+		if c2.GoLive {
+			a.live = true
+		}
+	}
+	a.end.Write(b)
 }
 
 func clipStr(s string, n int) string {
